@@ -528,6 +528,9 @@ class FuncAnalysis:
         return upd(t, fields)
 
     def _refine(self, t: Term, e: ast.AST, name: str) -> Term:
+        if t[0] == "upd":
+            b = self._refine(t[1], e, name)
+            return t if b is t[1] else ("upd", b, t[2])
         if t[0] != "phi" or ("const", None) not in t[1]:
             return t
         try:
